@@ -10,10 +10,10 @@ MANIFEST = {
 		'the source on every run: data window and hash input of a Symbol transaction (covered / uncovered bytes), the level loop of '
 		'MerkleHashBuilder.final equals the pairwise tree for every leaf count, honest audit paths verify, a verifying path is the honest one '
 		'or exhibits a SHA3 collision, hex-prefix path encoding (definition, injectivity), parse(serialize nodes) = nodes, and the verdict of '
-		'prove_patricia_merkle on all inputs with iff-characterisations of the positive / negative / inconclusive verdicts.  PARTIAL: that the '
-		'verdict is the one the tree format implies is proved only for proofs whose inner nodes have empty paths (the full statement is false '
-		'for the current code: counterexample in Props/C09.v, found again by the correspondence run).  Digest inequality after a covered bit '
-		'flip is collision resistance of SHA3 and is not a theorem.  Model and implementation are compared on seeded inputs for every function.',
+		'prove_patricia_merkle on all inputs with iff-characterisations of the positive / negative / inconclusive verdicts, and the verdict '
+		'the tree implies for every proof cut from a tree along the key (branches with non-empty paths included).  '
+		'Digest inequality after a covered bit flip is collision resistance of SHA3 and is not a theorem.  '
+		'Model and implementation are compared on seeded inputs for every function; corpus cases (past findings) run first.',
 	'design_ref': 'DESIGN.md section 4, C09',
 	'technique': 'Coq proof over regenerated model + vm_compute correspondence with the Python implementation',
 }
@@ -535,6 +535,17 @@ def gen_patricia(rng, tier):
 	return cases
 
 
+def corpus_cases():
+	"""Past findings kept as regression inputs (corpus/c09_*.json); they are evaluated before the generated cases."""
+	import json
+	from ..common import VERIF
+	cases = []
+	for path in sorted((VERIF / 'corpus').glob('c09_*.json')):
+		for case in json.loads(path.read_text(encoding='utf8'))['cases']:
+			cases.append(dict(case, corpus=path.name))
+	return cases
+
+
 def gen_deser(rng, tier, patricia_cases):
 	cases = []
 	step = max(1, len(patricia_cases) // (25 if tier == 'quick' else 400))
@@ -821,7 +832,9 @@ def run(check, unrecognised):
 			check.broken.append(f'shape:{key}')
 	check.prove('C09.v')
 	rng = check.rng
-	cases = gen_merkle(rng, check.tier) + gen_txhash(rng, check.tier) + gen_nem(rng, check.tier) + gen_encode(rng, check.tier)
+	cases = corpus_cases()
+	check.extra['corpus_cases'] = len(cases)
+	cases += gen_merkle(rng, check.tier) + gen_txhash(rng, check.tier) + gen_nem(rng, check.tier) + gen_encode(rng, check.tier)
 	patricia = gen_patricia(rng, check.tier)
 	cases += patricia + gen_deser(rng, check.tier, patricia)
 	outs = [impl(case) for case in cases]
@@ -836,6 +849,8 @@ def run(check, unrecognised):
 		label = case['kind'] + (':' + case['what'] if 'what' in case else '') + (':' + case['mode'] if 'mode' in case else '')
 		if case['kind'] == 'patricia' and case['expect'] is not None:
 			label += f':{hex(case["expect"])}'
+		if 'corpus' in case:
+			label = 'corpus:' + label
 		if mod is None:
 			label += ':implementation-and-oracle-only'
 		check.case(label, repr(sorted(case.items())), nontrivial=out != 'not-a-transaction')
